@@ -109,6 +109,14 @@ void World::opEnc(const Item& op)
             c.payload = makePayload(kind, len, c.msgId);
             if (kind == wire::K_IFSTAT && m.has("pifid") && c.payload.size() >= 4)
                 wire::wr32(c.payload.data(), static_cast<uint32_t>(m.get("pifid")));
+            if (m.has("tailx") && !c.payload.empty())
+            {
+                // the same content with one of its last bytes changed - only where that keeps the payload well-formed
+                Bytes alt = c.payload;
+                alt[alt.size() - 1 - static_cast<size_t>(std::max<int64_t>(0, m.get("tailo", 0))) % alt.size()] ^= static_cast<uint8_t>(m.get("tailx"));
+                if (wire::classify(b.mtype, b.ptype, alt.data(), alt.size()) == wire::classify(b.mtype, b.ptype, c.payload.data(), c.payload.size()))
+                    c.payload = std::move(alt);
+            }
             builds.push_back(static_cast<int>(m.get("build", 0)));
             junks.push_back(mix64(c.msgId * 31ULL + 5));
             batch.push_back(std::move(c));
@@ -421,7 +429,59 @@ void World::opRawSeg(const Item& op)
         size_t len = segLen[k];
         size_t trail = static_cast<size_t>(std::min<int64_t>(std::max<int64_t>(0, s.get("trail", 0)), 2000));
         InFlight f;
-        f.bytes.assign(wire::CMP_HDR + wire::MSG_HDR + len + trail, 0);
+        // "lead": small well-formed unsegmented messages of the same endpoint travel in FRONT of the segment in its frame
+        // (a real encoder never builds such a frame, a third-party one may). Honest senders only do it in the first frame:
+        // in a later one the unsegmented message would - correctly - abort the message it travels with.
+        size_t nLead = static_cast<size_t>(std::min<int64_t>(std::max<int64_t>(0, s.get("lead", 0)), 3));
+        if (honest && k > 0)
+            nLead = 0;
+        if (segs.size() == 1)
+            nLead = 0;
+        Bytes leadBytes;
+        for (size_t q = 0; q < nLead; ++q)
+        {
+            ExpPacket lp;
+            lp.dev = dev;
+            lp.stream = stream;
+            lp.version = ver;
+            lp.mtype = mtype;
+            lp.ptype = 0x20;
+            lp.ts = 0x1EAD0000u + q;
+            lp.id32 = whole.id32;
+            lp.flags = 0;
+            lp.msgId = id ^ static_cast<uint32_t>(0x1EAD00 + k * 8 + q);
+            lp.payload = contentBytes(lp.msgId, 0, 4 + q * 3);
+            lp.validity = wire::classify(mtype, 0x20, lp.payload.data(), lp.payload.size());
+            wire::MsgHdr lh;
+            lh.ts = lp.ts;
+            lh.id32 = lp.id32;
+            lh.flags = 0;
+            lh.ptype = 0x20;
+            lh.plen = static_cast<uint16_t>(lp.payload.size());
+            const size_t at = leadBytes.size();
+            leadBytes.resize(at + wire::MSG_HDR + lp.payload.size());
+            wire::writeMsgHdr(leadBytes.data() + at, lh);
+            memcpy(leadBytes.data() + at + wire::MSG_HDR, lp.payload.data(), lp.payload.size());
+            f.expect.push_back(lp);
+            if (is("C06"))
+            {
+                Endpoint ep{dev, stream};
+                SentMsg sm;
+                sm.hash = hashExp(lp);
+                sm.ep = ep;
+                sentHashes[ep].insert(sm.hash);
+                sm.frameIds.push_back(nextFrameId + static_cast<int>(k));
+                sent.push_back(sm);
+                f.completes.push_back(static_cast<int>(sent.size() - 1));
+            }
+        }
+        if (nLead)
+            probe("segment-frame-with-leading-messages");
+        f.hasLead = nLead > 0;
+        const size_t base = wire::CMP_HDR + leadBytes.size();  // where the segment's message header starts
+        f.bytes.assign(base + wire::MSG_HDR + len + trail, 0);
+        if (!leadBytes.empty())
+            memcpy(f.bytes.data() + wire::CMP_HDR, leadBytes.data(), leadBytes.size());
         wire::CmpHdr h;
         h.version = ver;
         h.dev = dev;
@@ -451,16 +511,16 @@ void World::opRawSeg(const Item& op)
             m.ptype = ptype;
         }
         m.plen = static_cast<uint16_t>(len);
-        wire::writeMsgHdr(f.bytes.data() + wire::CMP_HDR, m);
+        wire::writeMsgHdr(f.bytes.data() + base, m);
         if (len)
-            fillContent(f.bytes.data() + wire::CMP_HDR + wire::MSG_HDR, id, off, len);
+            fillContent(f.bytes.data() + base + wire::MSG_HDR, id, off, len);
         if (trail && s.get("tfill", 0))
-            fillContent(f.bytes.data() + wire::CMP_HDR + wire::MSG_HDR + len, id ^ 0x5A5A5A5Au, off, trail);
+            fillContent(f.bytes.data() + base + wire::MSG_HDR + len, id ^ 0x5A5A5A5Au, off, trail);
         if (trail && s.get("tfill", 0) == 2)
         {
             // the bytes behind the segment hold WELL-FORMED unsegmented messages (after tpad filler bytes): they still are
             // not part of anything - a segment is alone in its frame as far as the receiver is concerned
-            size_t pos = wire::CMP_HDR + wire::MSG_HDR + len + static_cast<size_t>(std::min<int64_t>(std::max<int64_t>(0, s.get("tpad", 0)), static_cast<int64_t>(trail)));
+            size_t pos = base + wire::MSG_HDR + len + static_cast<size_t>(std::min<int64_t>(std::max<int64_t>(0, s.get("tpad", 0)), static_cast<int64_t>(trail)));
             uint32_t q = 0;
             while (pos + wire::MSG_HDR + 4 <= f.bytes.size())
             {
@@ -615,6 +675,21 @@ void World::opRaw(const Item& op)
         f.bytes.resize(at + trail, 0);
         if (op.get("tfill", 0))
             fillContent(f.bytes.data() + at, static_cast<uint32_t>(op.get("tfill")), 0, trail);
+    }
+    if (op.has("slo") && !is("C05") && !is("C06") && !is("C01") && !is("C16") && f.bytes.size() >= wire::CMP_HDR + wire::MSG_HDR + 2)
+    {
+        // self-referential length: a 16-bit value derived from the size of this very frame (size - delta) inside the FIRST
+        // message's payload - what a parser that mistakes the frame for another protocol, or a payload field for a length,
+        // would be looking for. The frame stays well-formed; what the payload then means is the model's business.
+        const size_t firstLen = wire::rd16(f.bytes.data() + wire::CMP_HDR + 14);
+        const size_t slo = static_cast<size_t>(std::max<int64_t>(0, op.get("slo")));
+        if (slo + 2 <= firstLen && wire::CMP_HDR + wire::MSG_HDR + slo + 2 <= f.bytes.size())
+        {
+            wire::wr16(f.bytes.data() + wire::CMP_HDR + wire::MSG_HDR + slo,
+                       static_cast<uint16_t>(static_cast<int64_t>(f.bytes.size()) - op.get("sld", 0)));
+            allPlainUnseg = false;  // (the end-to-end expectation was built from the unpoked bytes)
+            fault("self-referential-length");
+        }
     }
     if (is("C06") && allPlainUnseg)
     {
